@@ -8,10 +8,12 @@ COQ_AGREE = 'C03_agree'
 COQ_MODEL_TARGETS = ['Model/C03_Model']
 RULE = ('grid over (N, batch_size, buckets) + random large N + datasets obtained by slicing a larger parent '
         '(d[a:b:c]: prefixes, suffixes, negative bounds, steps, reversed, empty, full); three call forms (hparams object, '
-        'keywords, hparams object overridden by keywords); features of 9 dtypes / trailing shapes (int32, uint8[.,3,2], float16, bool, object, S4, U3, datetime64[D], complex64), '
+        'keywords, hparams object overridden by keywords); features of 12 dtypes / trailing shapes (int32 incl. values > 2^24, uint8[.,3,2], int8[.,1], float16, bfloat16, bool, object, S4, U3, datetime64[D], complex64), '
+        'four call forms (+ the view classes directly), ints as python / NumPy scalar / 0-d array, fns as list / tuple / generator / iter / append(), '
+        'raw_examples as dict / OrderedDict / mappingproxy; per case: every view twice, interleaved iterators, other views in between, kept results, direct helper calls; '
         'preprocessor chains of length 0..2; non-trivial = N > 0 (at least one batch); distinct = distinct case JSON')
 TRUSTED = ['numpy slicing / np.zeros / np.arange / slice-store semantics as read by Common/NpArr.v (exercised by the correspondence)',
-           'per-dtype behaviour of np.zeros(shape, dtype) (rows are abstract in Coq; judged by the oracle on 9 feature kinds incl. fixed-width bytes / unicode, datetime64, complex64)']
+           'per-dtype behaviour of np.zeros(shape, dtype) (rows are abstract in Coq; judged by the oracle on 12 feature kinds incl. fixed-width bytes / unicode, datetime64, complex64)']
 ASSUMPTIONS = ['batch preprocessors are per-example (row-wise) functions, as the property states',
                'batch_size >= 1 and buckets >= 1 (batch_size = 0 raises in range())']
 CASE_TIMEOUT = 20
@@ -69,17 +71,19 @@ def generate(tier, rng):
     for b in range(0, p + 1):
       for bs in (1, 2, 3):
         yield {'n': len(_sel([p, None, b, None])), 'bs': bs, 'nb': 1 + (p + b) % 3, 'chain': (p + b + bs) % 3,
-               'kw': (p + bs) % 3, 'slice': [p, None, b, None]}
+               'kw': (p + bs) % 4, 'slice': [p, None, b, None], 'deliv': p + 5 * b + bs}
   for i, (n, bs, nb) in enumerate(grid):
-    yield {'n': n, 'bs': bs, 'nb': nb, 'chain': i % 3, 'kw': (i // 3) % 3}
+    yield {'n': n, 'bs': bs, 'nb': nb, 'chain': i % 3, 'kw': (i // 3) % 4, 'deliv': i // 12}
   for i in range(nrand):
     bs = rng.choice([1, 2, 3, 7, 8, 16, 31, 32, 64, 100, 128])
     n = rng.choice([rng.randrange(0, 6 * bs + 2), rng.randrange(0, 700)])
-    yield {'n': n, 'bs': bs, 'nb': rng.randrange(1, 10), 'chain': rng.randrange(3), 'kw': rng.randrange(3)}
+    yield {'n': n, 'bs': bs, 'nb': rng.randrange(1, 10), 'chain': rng.randrange(3), 'kw': rng.randrange(4),
+           'deliv': rng.randrange(60)}
   for sl in _slices(rng, nslice):
     n = len(_sel(sl))
     bs = rng.choice([1, 2, 3, rng.randrange(1, max(2, n + 3)), rng.randrange(1, sl[0] + 2)])
-    yield {'n': n, 'bs': bs, 'nb': rng.randrange(1, 6), 'chain': rng.randrange(3), 'kw': rng.randrange(3), 'slice': sl}
+    yield {'n': n, 'bs': bs, 'nb': rng.randrange(1, 6), 'chain': rng.randrange(3), 'kw': rng.randrange(4), 'slice': sl,
+           'deliv': rng.randrange(60)}
 
 
 def _rows(case):
@@ -87,9 +91,48 @@ def _rows(case):
   return _sel(case['slice']) if case.get('slice') else list(range(case['n']))
 
 
+def _scalar(v, form):
+  """An int delivered as a python int / NumPy scalar / 0-d array (all have __index__)."""
+  return [int(v), np.int64(v), np.array(v, dtype=np.int32)][form % 3]
+
+
+_F1 = lambda e: {**e, 'y': e['x'] * 3 + 1}                                 # noqa: E731
+_F2 = lambda e: {**e, 'y': e['y'] * e['y'], 'z': e['h'] + 1}               # noqa: E731
+
+
+def _preprocessor(case):
+  """The chain of `chain` functions, delivered as list / tuple / generator / iter(list) / built with append()."""
+  import fedjax
+  fns = [_F1, _F2][:case['chain']]
+  form = (case.get('deliv', 0) // 3) % 5
+  if form == 0:
+    return fedjax.BatchPreprocessor(fns), fns
+  if form == 1:
+    return fedjax.BatchPreprocessor(tuple(fns)), fns
+  if form == 2:
+    return fedjax.BatchPreprocessor(f for f in fns), fns
+  if form == 3:
+    return fedjax.BatchPreprocessor(iter(fns)), fns
+  pre = fedjax.BatchPreprocessor()
+  for f in fns:
+    pre = pre.append(f)
+  return pre, fns
+
+
+def _bf16():
+  import jax.numpy as jnp
+  return np.dtype(jnp.bfloat16)
+
+
+_BIG = (1 << 24) + 1      # int32 values that float32 cannot represent
+
+
 def _dataset(case):
-  """Returns (dataset under test, arrays of the dataset it was built from).  With a
-  `slice` the dataset under test is parent[a:b:c] of a parent with `slice[0]` rows."""
+  """Returns (dataset under test, arrays of the dataset it was built from, the mapping
+  handed to the constructor).  With a `slice` the dataset under test is parent[a:b:c] of a
+  parent with `slice[0]` rows.  The mapping is a dict / OrderedDict / read-only mappingproxy."""
+  import collections
+  import types
   import fedjax
   n = case['slice'][0] if case.get('slice') else case['n']
   ex = {
@@ -103,14 +146,18 @@ def _dataset(case):
       'u3': np.array(['u%d' % (i % 100) for i in range(n)], dtype='U3'),
       'day': (np.arange(n) + 11000).astype('datetime64[D]'),
       'cplx': ((np.arange(n) + 1) + 2j).astype(np.complex64),
+      'i8': (np.arange(n) % 100 - 50).astype(np.int8).reshape(n, 1),
+      'bf': (np.arange(n) % 64 + 1).astype(_bf16()),
+      'big': (np.arange(n, dtype=np.int64) + _BIG).astype(np.int32),
   }
-  fns = [lambda e: {**e, 'y': e['x'] * 3 + 1}, lambda e: {**e, 'y': e['y'] * e['y'], 'z': e['h'] + 1}][:case['chain']]
-  pre = fedjax.BatchPreprocessor(fns)
-  ds = fedjax.ClientDataset(ex, pre)
+  pre, _ = _preprocessor(case)
+  form = (case.get('deliv', 0) // 15) % 3
+  given = ex if form == 0 else collections.OrderedDict(ex) if form == 1 else types.MappingProxyType(ex)
+  ds = fedjax.ClientDataset(given, pre)
   if case.get('slice'):
     _, a, b, c = case['slice']
     ds = ds[slice(a, b, c)]
-  return ds, ex
+  return ds, ex, given
 
 
 def _snap(ex):
@@ -133,29 +180,97 @@ def _same(b1, b2):
   return True
 
 
-def run(case):
+def _views(ds, case):
+  """(plain, drop_remainder, padded) views of ds through the case's call form:
+  0 hparams object, 1 keywords, 2 hparams object overridden by keywords, 3 the view classes directly.
+  Returns the views and the hparams objects handed in (with copies taken before the call)."""
+  import copy
   import fedjax
-  ds, ex = _dataset(case)
-  snap = _snap(ex)
-  bs, nb = case['bs'], case['nb']
-  if case['kw'] == 2:
+  from fedjax.core import client_datasets as cd
+  f = case.get('deliv', 0)
+  bs, nb = _scalar(case['bs'], f), _scalar(case['nb'], f + 1)
+  kw = int(case['kw'])
+  hps = []
+
+  def hp(x):
+    hps.append((x, copy.deepcopy(x)))
+    return x
+  if kw == 2:
     # override form: a base hparams object that differs in every field + keyword overrides
-    v_plain = ds.batch(fedjax.BatchHParams(batch_size=bs + 3, drop_remainder=True), batch_size=bs, drop_remainder=False)
-    v_drop = ds.batch(fedjax.BatchHParams(batch_size=bs + 3, drop_remainder=False), batch_size=bs, drop_remainder=True)
-    v_pad = ds.padded_batch(fedjax.PaddedBatchHParams(batch_size=bs + 3, num_batch_size_buckets=nb + 2),
+    v_plain = ds.batch(hp(fedjax.BatchHParams(batch_size=case['bs'] + 3, drop_remainder=True)), batch_size=bs, drop_remainder=False)
+    v_drop = ds.batch(hp(fedjax.BatchHParams(batch_size=case['bs'] + 3, drop_remainder=False)), batch_size=bs, drop_remainder=True)
+    v_pad = ds.padded_batch(hp(fedjax.PaddedBatchHParams(batch_size=case['bs'] + 3, num_batch_size_buckets=case['nb'] + 2)),
                             batch_size=bs, num_batch_size_buckets=nb)
-  elif case['kw']:
+  elif kw == 1:
     v_plain = ds.batch(batch_size=bs)
     v_drop = ds.batch(batch_size=bs, drop_remainder=True)
     v_pad = ds.padded_batch(batch_size=bs, num_batch_size_buckets=nb)
+  elif kw == 3:
+    v_plain = cd.BatchView(ds, hp(fedjax.BatchHParams(batch_size=bs)))
+    v_drop = cd.BatchView(ds, hp(fedjax.BatchHParams(batch_size=bs, drop_remainder=True)))
+    v_pad = cd.PaddedBatchView(ds, hp(fedjax.PaddedBatchHParams(batch_size=bs, num_batch_size_buckets=nb)))
   else:
-    v_plain = ds.batch(fedjax.BatchHParams(batch_size=bs))
-    v_drop = ds.batch(fedjax.BatchHParams(batch_size=bs), drop_remainder=True)
-    v_pad = ds.padded_batch(fedjax.PaddedBatchHParams(batch_size=bs, num_batch_size_buckets=nb))
-  plain, drop, pad = _batches(v_plain), _batches(v_drop), _batches(v_pad)
+    shared = hp(fedjax.BatchHParams(batch_size=bs))       # one hparams object used for two views
+    v_plain = ds.batch(shared)
+    v_drop = ds.batch(shared, drop_remainder=True)
+    v_pad = ds.padded_batch(hp(fedjax.PaddedBatchHParams(batch_size=bs, num_batch_size_buckets=nb)))
+  return v_plain, v_drop, v_pad, hps
+
+
+def _keep(view):
+  """The batches exactly as yielded (no copy) together with a deep snapshot."""
+  raw = list(view)
+  return raw, [{k: np.array(v, copy=True) for k, v in b.items()} for b in raw]
+
+
+def _helpers_ok(ds, case):
+  """pad_examples / attach_mask / slice_examples / num_examples called directly."""
+  from fedjax.core import client_datasets as cd
+  M = cd.EXAMPLE_MASK_KEY
+  n = len(_rows(case))
+  k = min(n, 3)
+  if k == 0:
+    return True
+  ex = cd.slice_examples(ds.raw_examples, slice(0, k))
+  if cd.num_examples(ex) != k or set(ex) != set(ds.raw_examples):
+    return False
+  ok = True
+  for size in (k, k + 1, k + case['nb']):
+    p = cd.pad_examples(ex, size)
+    ok &= set(p) == set(ex) | {M} and p[M].dtype == np.bool_ and p[M].tolist() == [True] * k + [False] * (size - k)
+    for name, v in ex.items():
+      a = p[name]
+      ok &= a.dtype == v.dtype and a.shape == (size,) + v.shape[1:] and bool(np.array_equal(a[:k], v))
+      if v.dtype != object:
+        ok &= bool(np.array_equal(a[k:], np.zeros((size - k,) + v.shape[1:], v.dtype)))
+    for bad in (lambda: cd.pad_examples(p, size + 1), lambda: cd.attach_mask(p, p[M])):   # mask key already present
+      try:
+        bad()
+        ok = False
+      except ValueError:
+        pass
+  try:
+    cd.pad_examples(ex, k - 1)       # more rows than the requested size
+    ok = False
+  except ValueError:
+    pass
+  m = np.arange(k) % 2 == 0
+  am = cd.attach_mask(ex, m)
+  ok &= set(am) == set(ex) | {M} and am[M] is m and all(am[name] is ex[name] for name in ex) and M not in ex
+  return bool(ok)
+
+
+def run(case):
+  import itertools
+  import fedjax
+  ds, ex, given = _dataset(case)
+  snap = _snap(ex)
+  ids = {k: id(v) for k, v in ex.items()}
+  v_plain, v_drop, v_pad, hps = _views(ds, case)
+  raw_plain, plain = _keep(v_plain)
+  raw_pad, pad = _keep(v_pad)
+  drop = _batches(v_drop)
   again = _same(plain, _batches(v_plain)) and _same(drop, _batches(v_drop)) and _same(pad, _batches(v_pad))
-  mutated = any(not (np.array_equal(ex[k], s[0]) and ex[k].dtype == s[1] and ex[k].shape == s[2])
-                for k, s in snap.items())
   M = fedjax.EXAMPLE_MASK_KEY
   feat_ok = True   # all features follow x row-wise; pads are zero with dtype / trailing shape kept
   for b in plain + drop:
@@ -168,12 +283,52 @@ def run(case):
     feat_ok &= _features_follow(allx, allx['x'], None, case)
   except ValueError:     # an empty chain result etc. is not expected: reported by the oracle
     all_rows = None
+  # -- interleaving (WAVE3 item 5): two live iterators over one view, iterators over different views of
+  #    the same dataset advanced alternately, one pass consumed in pieces with a bare iter() in between
+  inter = True
+  za = list(zip(v_plain, v_plain))
+  inter &= _same([dict(a) for a, _ in za], plain) and _same([dict(b) for _, b in za], plain)
+  its = [iter(v_pad), iter(v_plain), iter(v_pad)]
+  got = [[], [], []]
+  for _ in range(max(len(pad), len(plain)) + 1):
+    for it, g in zip(its, got):
+      for b in itertools.islice(it, 1):
+        g.append({k: np.array(v) for k, v in b.items()})
+  inter &= _same(got[0], pad) and _same(got[1], plain) and _same(got[2], pad)
+  it = iter(v_pad)
+  first = [{k: np.array(v) for k, v in b.items()} for b in itertools.islice(it, 1)]
+  iter(v_pad)                       # a bare iter() in between must not disturb the running pass
+  next(iter(v_plain), None)
+  rest = [{k: np.array(v) for k, v in b.items()} for b in it]
+  inter &= _same(first + rest, pad)
+  # -- hidden state (item 3): other views with other hparams from the same dataset, a second dataset over the
+  #    same arrays and preprocessor, then the first-built views once more and fresh ones
+  hidden = True
+  other = _batches(ds.padded_batch(batch_size=case['bs'] + 1, num_batch_size_buckets=case['nb'] + 1))
+  other2 = _batches(ds.batch(batch_size=case['bs'] + 2))
+  hidden &= [i for b in other2 for i in b['x'].tolist()] == _rows(case)
+  hidden &= [int(i) for b in other for i, t in zip(b['x'].tolist(), b[M].tolist()) if t] == _rows(case)
+  hidden &= _same(plain, _batches(v_plain)) and _same(pad, _batches(v_pad)) and _same(drop, _batches(v_drop))
+  ds2, _, _ = _dataset(case)
+  f_plain, f_drop, f_pad, _ = _views(ds2, case)
+  hidden &= _same(plain, _batches(f_plain)) and _same(pad, _batches(f_pad)) and _same(drop, _batches(f_drop))
+  # -- caller-owned data (item 4): results kept by the caller, containers, hparams objects
+  kept = _same([dict(b) for b in raw_plain], plain) and _same([dict(b) for b in raw_pad], pad)
+  mutated = any(not (np.array_equal(ex[k], s[0]) and ex[k].dtype == s[1] and ex[k].shape == s[2])
+                for k, s in snap.items())
+  container = set(ex) == set(snap) and all(id(ex[k]) == ids[k] for k in ex) and list(given) == list(snap)
+  if not case.get('slice'):
+    container &= ds.raw_examples is given
+  container &= all(a == b for a, b in hps)
+  container &= len(_preprocessor(case)[1]) == case['chain']
   return {
       'len': int(len(ds)), 'all': all_rows,
       'plain': [b['x'].tolist() for b in plain],
       'drop': [b['x'].tolist() for b in drop],
       'padded': [[b['x'].tolist(), [bool(t) for t in b[M].tolist()]] if M in b else [b['x'].tolist(), []] for b in pad],
       'again': bool(again), 'mutated': bool(mutated), 'features_ok': bool(feat_ok),
+      'interleaved': bool(inter), 'hidden': bool(hidden), 'kept': bool(kept), 'container': bool(container),
+      'helpers': _helpers_ok(ds, case),
   }
 
 
@@ -195,6 +350,9 @@ def _features_follow(b, x, mask, case):
   exp['u3'] = (np.array(['u%d' % (int(i) % 100) for i in xi], dtype='U3').reshape(n), np.dtype('U3'), ())
   exp['day'] = ((xi + 11000).astype('datetime64[D]'), np.dtype('datetime64[D]'), ())
   exp['cplx'] = (((xi + 1) + 2j).astype(np.complex64), np.complex64, ())
+  exp['i8'] = ((xi % 100 - 50).astype(np.int8).reshape(n, 1), np.int8, (1,))
+  exp['bf'] = ((xi % 64 + 1).astype(_bf16()), _bf16(), ())
+  exp['big'] = ((xi + _BIG).astype(np.int32), np.int32, ())
   if case['chain'] >= 1:
     exp['y'] = ((xi * 3 + 1).astype(np.int32), np.int32, ())
   if case['chain'] >= 2:
@@ -278,6 +436,19 @@ def oracle(case, obs):
     out.append(('reiterate', 'iterating the same view again gave different batches'))
   if obs['mutated']:
     out.append(('mutated', 'iteration mutated the dataset arrays'))
+  if not obs.get('interleaved', True):
+    out.append(('interleaved-iterators', 'two live iterators over one view / iterators over several views of one dataset '
+                'advanced alternately / a pass consumed in pieces do not reproduce the sequential pass'))
+  if not obs.get('hidden', True):
+    out.append(('hidden-state', 'after building and iterating other views (other hparams) of the same dataset, the first-built '
+                'views, or fresh views over the same inputs, no longer give the same batches'))
+  if not obs.get('kept', True):
+    out.append(('kept-results', 'batches kept by the caller changed after later iterations'))
+  if not obs.get('container', True):
+    out.append(('container', 'the raw_examples mapping (keys / array identities), an hparams object or the function '
+                'container handed in was changed'))
+  if not obs.get('helpers', True):
+    out.append(('helpers', 'pad_examples / attach_mask / slice_examples / num_examples called directly misbehave'))
   if not obs['features_ok']:
     out.append(('features', 'a feature / preprocessed column does not follow its row, changed dtype or shape, or a padded row is not zero'))
   return out
@@ -304,7 +475,10 @@ def describe(case, obs):
   kind = ('none' if not sl else 'empty' if n == 0 else 'full' if n == sl[0] and (sl[3] or 1) > 0 else
           'step' if (sl[3] or 1) != 1 else 'sub')
   return {'N_vs_bs': 'empty' if n == 0 else 'lt' if n < bs else 'eq' if n == bs else 'multiple' if n % bs == 0 else 'gt',
-          'buckets': min(case['nb'], 6), 'chain': case['chain'], 'call_form': ['hparams', 'kwargs', 'override'][int(case['kw'])],
+          'buckets': min(case['nb'], 6), 'chain': case['chain'], 'call_form': ['hparams', 'kwargs', 'override', 'view-class'][int(case['kw'])],
+          'scalars': ['int', 'np.int64', '0-d array'][case.get('deliv', 0) % 3],
+          'fns_as': ['list', 'tuple', 'generator', 'iter', 'append'][(case.get('deliv', 0) // 3) % 5],
+          'mapping': ['dict', 'OrderedDict', 'mappingproxy'][(case.get('deliv', 0) // 15) % 3],
           'slice': kind}
 
 
